@@ -906,3 +906,83 @@ def gen_modifiers(src, attempt):
                 "Definition crc_de_widths : list (list N) := [%s]." % (errenc, errcrc, '; '.join(coq_str(w) for w in widths)))
     attempt(out, 'de/flavors.rs:CrcModifier', crc_de, 'crc_de_finalize')
     return '\n'.join(out) + '\n'
+
+
+# ----------------------------------------------------------------------------------------
+# GenEntryPoints.v: the slice / COBS entry points of de/mod.rs, by templates up to renaming
+
+ENTRY_TEMPLATES = {
+    'from_bytes': "let mut $d = Deserializer :: from_bytes ( $s ) ; let $t = T :: deserialize ( & mut $d ) ? ; Ok ( $t )",
+    'take_from_bytes': "let mut $d = Deserializer :: from_bytes ( $s ) ; let $t = T :: deserialize ( & mut $d ) ? ; Ok ( ( $t , $d . finalize ( ) ? ) )",
+    'from_bytes_cobs': "let $sz = decode_in_place ( $s ) . map_err ( | _ | Error :: DeserializeBadEncoding ) ? ; from_bytes :: < T > ( & $s [ .. $sz ] )",
+    'take_from_bytes_cobs': ("let mut $report = decode_in_place_report ( $s ) . map_err ( | _ | Error :: DeserializeBadEncoding ) ? ; "
+                             "if $s . get ( $report . src_used ) == Some ( & 0 ) { $report . src_used += 1 ; } "
+                             "let ( $dst_used , $dst_unused ) = $s . split_at_mut ( $report . dst_used ) ; "
+                             "let ( $unused , $src_unused ) = $dst_unused . split_at_mut ( $report . src_used - $report . dst_used ) ; "
+                             "Ok ( ( from_bytes :: < T > ( $dst_used ) ? , $src_unused ) )"),
+}
+
+
+def gen_entry_points(src, attempt, match_template, tokenize):
+    out = ["(* GENERATED by tools/translate.py from the Rust sources. Do not edit. *)",
+           "From PV Require Import Base.", "Open Scope N_scope.", "",
+           "(* source/postcard/src/de/mod.rs: the slice and COBS entry points match their templates (up to",
+           "   renaming of locals): decode in place, deserialize the decoded prefix, hand back what follows *)"]
+    text = src('source/postcard/src/de/mod.rs')
+
+    def go():
+        for name, tmpl in ENTRY_TEMPLATES.items():
+            sig, body = find_fn(text, name)
+            toks = [t[1] for t in tokenize(body)]
+            cap = match_template(toks, tmpl.split(), 'de/mod.rs:' + name)
+            pm = re.search(r'\(\s*(\w+)\s*:', sig)
+            if not pm or cap.get('$s') != pm.group(1):
+                raise Untranslatable("de/mod.rs:%s: `%s` is not the parameter" % (name, cap.get('$s')))
+        return "Definition de_entry_points_standard : bool := true."
+    attempt(out, 'de/mod.rs:entry points', go, 'de_entry_points_standard')
+    return '\n'.join(out) + '\n'
+
+
+# ----------------------------------------------------------------------------------------
+# GenFixint.v: fixint.rs (the two wrapper types, the eight integer types, the two serde-with modules)
+
+def gen_fixint(src, attempt):
+    out = ["(* GENERATED by tools/translate.py from the Rust sources. Do not edit. *)",
+           "From PV Require Import Base.", "Open Scope N_scope.", "",
+           "(* source/postcard/src/fixint.rs *)"]
+    text = src('source/postcard/src/fixint.rs')
+
+    def go():
+        mac = block_after(text, r'macro_rules!\s*impl_fixint\s*')
+        rows = []
+        for w in ('LE', 'BE'):
+            ms = re.search(r'impl\s+Serialize\s+for\s+' + w + r'<\$int>\s*\{(.*?)\n            \}', mac, re.S)
+            md = re.search(r"impl<'de>\s*Deserialize<'de>\s+for\s+" + w + r'<\$int>\s*\{(.*?)\n            \}', mac, re.S)
+            if not ms or not md:
+                raise Untranslatable("fixint.rs: impls for %s not found" % w)
+            sig, sb = find_fn(ms.group(1), 'serialize')
+            sig, db = find_fn(md.group(1), 'deserialize')
+            m1 = re.match(r'^self\.0\.(\w+)\(\)\.serialize\(serializer\)$', compact(sb))
+            m2 = re.match(r'^<_asDeserialize>::deserialize\(deserializer\)\.map\(<\$int>::(\w+)\)\.map\(Self\)$', compact(db))
+            if not m1 or not m2:
+                raise Untranslatable("fixint.rs: %s bodies are `%s` / `%s`" % (w, compact(sb)[:80], compact(db)[:80]))
+            rows.append("(%s, (%s, %s))" % (coq_str(w), coq_str(m1.group(1)), coq_str(m2.group(1))))
+        types = re.search(r'impl_fixint!\[(.*?)\]', text, re.S)
+        if not types:
+            raise Untranslatable("fixint.rs: impl_fixint! invocation not found")
+        tys = [t.strip() for t in types.group(1).split(',') if t.strip()]
+        mods = []
+        for modname in ('le', 'be'):
+            body = block_after(text, r'pub\s+mod\s+' + modname + r'\s*')
+            sig, sb = find_fn(body, 'serialize')
+            sig, db = find_fn(body, 'deserialize')
+            m1 = re.match(r'^(\w+)\(\*val\)\.serialize\(serializer\)$', compact(sb))
+            m2 = re.match(r'^(\w+)::<T>::deserialize\(deserializer\)\.map\(\|x\|x\.0\)$', compact(db))
+            if not m1 or not m2 or m1.group(1) != m2.group(1):
+                raise Untranslatable("fixint.rs: mod %s is `%s` / `%s`" % (modname, compact(sb)[:80], compact(db)[:80]))
+            mods.append("(%s, %s)" % (coq_str(modname), coq_str(m1.group(1))))
+        return ("Definition fixint_wrappers : list (list N * (list N * list N)) := [%s].\n"
+                "Definition fixint_types : list (list N) := [%s].\n"
+                "Definition fixint_modules : list (list N * list N) := [%s]." % ('; '.join(rows), '; '.join(coq_str(t) for t in tys), '; '.join(mods)))
+    attempt(out, 'fixint.rs', go, 'fixint_wrappers')
+    return '\n'.join(out) + '\n'
